@@ -92,9 +92,10 @@ func cmdCheck(args []string) int {
 	extraRC := 0
 	for _, bs := range strings.Split(*extraBuf, ",") {
 		n, err := strconv.Atoi(strings.TrimSpace(bs))
-		if err != nil || n <= 0 {
+		if err != nil || n < 0 || strings.TrimSpace(bs) == "" {
 			continue
 		}
+		// 0 = the real buffer size: only harnesses marked //verif:realsize run there
 		ge, err := Load(*repo, *verif, []string{"stack", "internal"}, n)
 		if err != nil {
 			fmt.Fprintln(os.Stderr, "load failed:", err)
@@ -104,16 +105,23 @@ func cmdCheck(args []string) int {
 		for _, prop := range props {
 			var hs []*Harness
 			for _, h := range ge.Harnesses(*tier) {
-				if h.Prop == prop && h.BufSensitive && (*only == "" || strings.Contains(h.Name, *only)) {
+				if h.Prop != prop || (*only != "" && !strings.Contains(h.Name, *only)) {
+					continue
+				}
+				if (n == 0 && h.RealSize) || (n > 0 && h.BufSensitive) {
 					hs = append(hs, h)
 				}
 			}
 			if len(hs) == 0 {
 				continue
 			}
-			fmt.Printf("[%s] additional reader buffer size %d\n", prop, n)
+			if n == 0 {
+				fmt.Printf("[%s] reader at its real buffer size\n", prop)
+			} else {
+				fmt.Printf("[%s] additional reader buffer size %d\n", prop, n)
+			}
 			r := ge.checkProperty(prop, hs, *tier, *seed, RunOpts{Workers: *workers, Solver: *solver, TimeoutMs: *timeout, MaxViol: 8, Verbose: *verbose, MaxPaths: *maxPaths, InstFilter: *instFilter}, !*noReplay, time.Now(), false)
-			extraRuns = append(extraRuns, map[string]interface{}{"property": prop, "buffer_bytes": n, "exit": r, "paths": ge.lastPaths, "queries": ge.lastQueries, "harnesses": ge.lastHarnesses})
+			extraRuns = append(extraRuns, map[string]interface{}{"property": prop, "buffer_bytes": map[bool]int{true: 16384, false: n}[n == 0], "exit": r, "paths": ge.lastPaths, "queries": ge.lastQueries, "harnesses": ge.lastHarnesses})
 			if r > extraRC {
 				extraRC = r
 			}
@@ -143,6 +151,9 @@ func cmdCheck(args []string) int {
 	for _, prop := range props {
 		var hs []*Harness
 		for _, h := range all {
+			if h.RealSize && g.BufSize != 0 {
+				continue // runs in the real-size pass only
+			}
 			if h.Prop == prop && (*only == "" || strings.Contains(h.Name, *only)) {
 				hs = append(hs, h)
 			}
